@@ -21,7 +21,13 @@ Case (JSON):
    "typed": bool,                                         # use the typed task BodyT (typed back edges are refused at construction)
    "n_procs": n | absent,                                 # size of the controlled worker's pool (default min(jobs, k + 1))
    "worker": "debug" | "cf", "log": bool                  # free-running case under an unmodified worker (run_free)
-   "policy": {"seed": n, "style": "random" | "fifo" | "greedy" | "lazy" | "failslast"}}
+   "policy": {"seed": n, "style": "random" | "fifo" | "greedy" | "lazy" | "failslast"},
+   "two": {"rerun": bool, "ro": bool, "pre_fail": [tags]}}  # TWO-PASS case (pre-existing results): the workflow is first
+                                                          #   submitted under the plain cf worker (generation 1, bodies in
+                                                          #   `pre_fail` raise), then - this is the observed submission - again
+                                                          #   (generation 2, `fail`) over the same cache_root, or with a fresh
+                                                          #   cache_root and the first one as readonly cache (`ro`), with
+                                                          #   `rerun` as given.  Static splits only (no inherit / listers / dups).
 
 A *tag* names a body: "<node>" or "<node>.<split value>".
 This module is imported both by the harness and (with `python -m harness.engines.sched`) by the child
@@ -197,6 +203,11 @@ class Player:
 
         def advance(x, force=False):
             """move job x one or more steps forward; with `force` all the way to completion"""
+            if t[x] == "hit":  # cached result, no body: the only move is the completion of the future
+                if force or rng.random() < p_done:
+                    done.append(x)
+                    t[x] = "gone"
+                return
             if t[x] == "idle" and (force or rng.random() < p_acq):
                 if self.vanish.get(x) == "idle":
                     van.append(x)
@@ -218,7 +229,7 @@ class Player:
         for x in order:
             advance(x)
         if not done and not van:  # the loop is blocked in asyncio.wait: some future has to complete
-            cand = [x for x in order if t[x] in ("fin", "ok", "err")] or [x for x in order if t[x] == "locked"] or order
+            cand = [x for x in order if t[x] in ("fin", "ok", "err", "hit")] or [x for x in order if t[x] == "locked"] or order
             advance(cand[0] if st in ("fifo", "greedy", "failslast") else rng.choice(cand), force=True)
         return {"acq": acq, "fin": fin, "van": van, "done": done}
 
@@ -260,6 +271,15 @@ class Player:
             self.truth[x] = "lost"
         dn = list(mv.get("done", []))
         for x in dn:
+            if self.truth.get(x) == "hit":
+                if x not in pending:
+                    bad(f"complete {x}: cache hit that is not pending")
+                c.open(c.start_gate, x)
+                await c.until(lambda: x in c.returned, f"cache hit {x} to return")
+                if x in c.seen_s:
+                    bad(f"complete {x}: expected a cache hit but the body ran")
+                self.truth[x] = "ok"
+        for x in dn:
             if c.racer is not None and c.racer.done and x == c.racer.spec["job"] and self.truth.get(x) == "locked":
                 # the racer let this body fail in the middle of a poll; its future now has the (failed) result
                 await c.until(lambda: x in c.returned, f"raced job {x} to finish")
@@ -282,7 +302,7 @@ class Player:
                 await c.until(lambda: all(k in c.tag_of_ck for k in cks), "dispatched tasks to enter run()")
                 pending = [c.tag_of_ck[k] for k in cks]
                 for x in pending:
-                    self.truth.setdefault(x, "idle")
+                    self.truth.setdefault(x, "hit" if c.hit.get(x) else "idle")
                 while len(self.schedule) < r:
                     self.schedule.append({})  # fetch_finished calls with nothing pending: no environment moves
                 if self.script is not None:
@@ -481,7 +501,17 @@ def run_controlled(case: dict, scratch: Path) -> dict:
     obs: dict = {}
     Workflow.clear_cache()
     mod = load_module(gen_source(case, uid), base, uid)
-    wf = getattr(mod, f"W_{uid}")(ctl=str(ctl_dir), mode="gate")
+    two = case.get("two")
+    sub_kw, call_kw, first = {}, {}, None
+    if two:
+        first = first_pass(case, mod, uid, ctl_dir, cache_root)
+        (ctl_dir / "cfg.json").write_text(json.dumps({"gen": 2, "fail": sorted(case.get("fail") or []), "gate": True}))
+        if two.get("ro"):
+            sub_kw["readonly_caches"] = [cache_root]
+            cache_root = base / "cache2"
+            cache_root.mkdir()
+        call_kw["rerun"] = bool(two.get("rerun"))
+    wf = getattr(mod, f"W_{uid}")(ctl=str(ctl_dir), mode="x" if two else "gate")
     ctl = W.Control(ctl_dir, k)
     W.CONTROL = ctl
     racer = None
@@ -494,7 +524,7 @@ def run_controlled(case: dict, scratch: Path) -> dict:
         # dispatcher that oversteps the limit shows up as an extra open body instead of a queue in the pool
         n_procs = case.get("n_procs") or (min(njobs, 8) if k is None else min(njobs, k + 1))
         worker = W.VerifWorker(n_procs=max(2, n_procs))
-        sub = W.ObsSubmitter(worker=worker, cache_root=cache_root, max_concurrent=(float("inf") if k is None else k))
+        sub = W.ObsSubmitter(worker=worker, cache_root=cache_root, max_concurrent=(float("inf") if k is None else k), **sub_kw)
         with sub:
             loop = sub.loop
             asyncio.set_event_loop(loop)
@@ -512,7 +542,7 @@ def run_controlled(case: dict, scratch: Path) -> dict:
 
                 loop.add_signal_handler(signal.SIGUSR2, _dump)
             try:
-                res = sub(wf, raise_errors=True)
+                res = sub(wf, raise_errors=True, **call_kw)
                 outputs = {nd["name"]: canon(getattr(res.outputs, "o_" + nd["name"])) for nd in case["nodes"]}
             except W.Livelock:
                 outcome = "LIVELOCK"
@@ -583,6 +613,8 @@ def run_controlled(case: dict, scratch: Path) -> dict:
             "outputs": outputs,
             "msg": msg[-600:] if outcome in ("DEVICE-TIMEOUT",) or os.environ.get("VERIF_SCHED_DEBUG") else "",
         }
+        if first is not None:
+            obs["first"] = first
     finally:
         if racer is not None:
             racer.stop()
@@ -593,6 +625,29 @@ def run_controlled(case: dict, scratch: Path) -> dict:
         if not os.environ.get("VERIF_SCHED_KEEP"):
             shutil.rmtree(base, ignore_errors=True)
     return obs
+
+
+def first_pass(case: dict, mod, uid: str, ctl_dir: Path, cache_root: Path) -> dict:
+    """the FIRST submission of a two-pass case: plain cf worker, no limit, generation 1, bodies in `pre_fail` raise.
+    Leaves its results in `cache_root`; returns what it did (body log, cache)."""
+    from pydra.engine.submitter import Submitter
+    from pydra.engine.workflow import Workflow
+
+    two = case["two"]
+    (ctl_dir / "cfg.json").write_text(json.dumps({"gen": 1, "fail": sorted(two.get("pre_fail") or []), "gate": False}))
+    wf = getattr(mod, f"W_{uid}")(ctl=str(ctl_dir), mode="x")
+    outcome = "ok"
+    try:
+        with Submitter(worker="cf", n_procs=2, cache_root=cache_root) as sub:
+            sub(wf, raise_errors=True)
+    except Exception as e:  # noqa: BLE001
+        outcome = type(e).__name__
+    log = (ctl_dir / "log").read_text().splitlines() if (ctl_dir / "log").exists() else []
+    if (ctl_dir / "log").exists():
+        (ctl_dir / "log").rename(ctl_dir / "log.1")
+    Workflow.clear_cache()
+    return {"outcome": outcome, "ok": sorted(ln.split()[1] for ln in log if ln.startswith("E ") and ln.split()[2] == "ok"),
+            "err": sorted(ln.split()[1] for ln in log if ln.startswith("E ") and ln.split()[2] == "err")}
 
 
 def run_free(case: dict, scratch: Path) -> dict:
@@ -611,12 +666,25 @@ def run_free(case: dict, scratch: Path) -> dict:
     log = bool(case.get("log"))
     try:
         mod = load_module(gen_source(case, uid), base, uid)
-        wf = getattr(mod, f"W_{uid}")(ctl=str(ctl_dir) if log else "", mode="log:" + ",".join(case.get("fail") or []))
+        two = case.get("two")
+        first, call_kw = None, {}
         kw = {"n_procs": case["n_procs"]} if case["worker"] == "cf" else {}
+        if two:
+            first = first_pass(case, mod, uid, ctl_dir, cache_root)
+            (ctl_dir / "cfg.json").write_text(json.dumps({"gen": 2, "fail": sorted(case.get("fail") or []), "gate": False}))
+            if two.get("ro"):
+                kw["readonly_caches"] = [cache_root]
+                cache_root = base / "cache2"
+                cache_root.mkdir()
+            call_kw["rerun"] = bool(two.get("rerun"))
+            log = True
+            wf = getattr(mod, f"W_{uid}")(ctl=str(ctl_dir), mode="x")
+        else:
+            wf = getattr(mod, f"W_{uid}")(ctl=str(ctl_dir) if log else "", mode="log:" + ",".join(case.get("fail") or []))
         outcome, outputs, msg = "ok", None, ""
         try:
             with Submitter(worker=case["worker"], cache_root=cache_root, max_concurrent=(float("inf") if k is None else k), **kw) as sub:
-                res = sub(wf, raise_errors=True)
+                res = sub(wf, raise_errors=True, **call_kw)
             outputs = {nd["name"]: canon(getattr(res.outputs, "o_" + nd["name"])) for nd in case["nodes"]}
         except Exception as e:  # noqa: BLE001
             outcome, msg = type(e).__name__, str(e)
@@ -626,8 +694,15 @@ def run_free(case: dict, scratch: Path) -> dict:
                 p = line.split()
                 order.append(p[0] + " " + p[1])
         m = re.search(r"body (\S+) fails as scheduled", msg)
-        return {"outcome": outcome, "outputs": outputs, "bodylog": order, "raised": m.group(1) if m else None,
-                "cache": cache_state(cache_root), "msg": msg[-300:] if os.environ.get("VERIF_SCHED_DEBUG") else ""}
+        kind = None
+        if outcome == "RuntimeError" and msg.lstrip().startswith("Workflow ") and not msg.lstrip().startswith("Workflow job "):
+            kind = "failedNodes"  # raised by WorkflowOutputs._from_job
+        obs = {"outcome": outcome, "outputs": outputs, "bodylog": order, "raised": m.group(1) if m else None, "kind": kind,
+               "named": parse_named(msg, case) if outcome == "RuntimeError" else [],
+               "cache": cache_state(cache_root), "msg": msg[-300:] if os.environ.get("VERIF_SCHED_DEBUG") else ""}
+        if first is not None:
+            obs["first"] = first
+        return obs
     finally:
         Workflow.clear_cache()
         sys.modules.pop(f"schedgen_{uid}", None)
@@ -823,7 +898,35 @@ def doomed_nodes(case: dict, fail: set) -> set:
     return dead
 
 
+def _job_ix(case: dict) -> dict[str, list[int]]:
+    """tag -> [node index, job index] (two-pass cases: static splits, no duplicate checksums)"""
+    names = [nd["name"] for nd in case["nodes"]]
+    return {t: [names.index(n), i] for n, ts in node_jobs(case).items() for i, t in enumerate(ts)}
+
+
+def model_query_two(case: dict, schedule: list[dict] | None) -> dict:
+    """query of the `rerun` operation of the Lean driver (Sched/Rerun.lean); schedule None = synchronous loop"""
+    mc = model_case(case)
+    ix = _job_ix(case)
+    two = case["two"]
+    fail = set(case.get("fail") or [])
+    q = {"op": "rerun", "mode": "sync" if schedule is None else "async", "nodes": mc["nodes"], "edges": mc["edges"],
+         "sizes": [len(j) for j in mc["jobs"]], "k": mc["k"], "rerun": bool(two.get("rerun")), "ro": bool(two.get("ro")),
+         "pre_fail": [ix[t] for t in two.get("pre_fail") or []], "fail": [ix[t] for t in sorted(fail)]}
+    if schedule is not None:
+        sched = []
+        for mv in schedule:
+            r = [["acq", *ix[x]] for x in mv.get("acq", [])]
+            r += [["err" if x in fail else "ok", *ix[x]] for x in mv.get("fin", [])]
+            r += [["done", *ix[x]] for x in mv.get("done", [])]
+            sched.append(r)
+        q["schedule"] = sched
+    return q
+
+
 def model_query(case: dict, schedule: list[dict], old: bool = False) -> dict:
+    if case.get("two"):
+        return model_query_two(case, schedule)
     mc = model_case(case)
     ck = mc["cks"]
     fail = set(case.get("fail") or [])
@@ -876,10 +979,115 @@ def impl_view(case: dict, obs: dict) -> tuple[dict, list]:
         "executed": sorted(obs.get("executed") or []),
         "maxopen": obs.get("maxopen"),
     }
+    if case.get("two"):
+        view["gens"] = impl_gens(case, obs.get("outputs"))
     return view, tables
 
 
+def impl_gens(case: dict, outputs: dict | None):
+    """two-pass cases, from the outputs of a successful submission: per node, which jobs hold a value of THIS submission
+    (`fresh`) and whether the values the node consumed are the final values of its predecessors (`consistent`)"""
+    if outputs is None:
+        return None
+    out = {}
+    for nd in case["nodes"]:
+        v = outputs[nd["name"]]
+        vals = v if nd.get("split") is not None else [v]
+        fresh = [str(x[1]).endswith("@2") for x in vals]
+        want = [outputs[p] for p in nd["preds"]]
+        out[nd["name"]] = {"fresh": fresh, "consistent": all(x[2] == want for x in vals)}
+    return out
+
+
+def model_gens(case: dict, ans: dict):
+    if ans.get("outcome") != "success" or "fresh" not in ans:
+        return None
+    names = [nd["name"] for nd in case["nodes"]]
+    return {n: {"fresh": ans["fresh"][str(i)], "consistent": ans["consistent"][str(i)]} for i, n in enumerate(names)}
+
+
+def model_view_two(case: dict, ans: dict) -> tuple[dict | None, list]:
+    if ans is None or "rounds" not in ans:
+        return None, []
+    names = [nd["name"] for nd in case["nodes"]]
+    jobs = node_jobs(case)
+
+    def tg(j):
+        return jobs[names[j[0]]][j[1]]
+
+    rounds, tables = [], []
+    for r in ans["rounds"]:
+        rounds.append({"tasks": [tg(j) for j in r["tasks"]], "pending": sorted(tg(j) for j in r["pending"]),
+                       "dispatched": [tg(j) for j in r["dispatched"]]})
+        tables.append(_tables_named(r["tables"], names, True))
+    oc = ans.get("outcome") if ans.get("status") == "done" else "MODEL-" + str(ans.get("status"))
+    if oc == "failedNodes":
+        named = sorted(names[n] + ("" if len(jobs[names[n]]) == 1 and jobs[names[n]][0] == names[n] else ".?") for n in ans["named"])
+    else:
+        named = sorted(tg(j) for j in ans.get("named", []))
+    view = {"sorted": [names[n] for n in ans["sorted"]], "rounds": rounds, "outcome": oc, "named": named,
+            "executed": sorted(tg(j) for j in ans.get("began", [])), "maxopen": ans["maxlocked"], "gens": model_gens(case, ans)}
+    return view, tables
+
+
+def two_oracle(case: dict, obs: dict) -> tuple[bool, str]:
+    """Independent verdict on the SECOND submission of a two-pass case, from the bodies' own log and the outputs:
+      * which bodies run: with `rerun` every job of every node not downstream of a failing body, exactly once; without it
+        exactly the jobs that have no successful result from the first submission (its errored jobs are retried);
+      * order: a body starts only after the bodies of all jobs of all upstream nodes that run in this submission have ended;
+      * values (successful submission): every value is the one of the dataflow evaluated on generation 2 for the bodies that
+        had to run and generation 1 for the cached ones."""
+    two = case["two"]
+    if obs.get("outcome") in ("HANG", "DEVICE-TIMEOUT", "LIVELOCK"):
+        return False, f"submission did not end: {obs.get('outcome')} {obs.get('msg', '')[:200]}"
+    first = obs.get("first") or {}
+    ok1 = set(first.get("ok") or [])
+    fail = set(case.get("fail") or [])
+    jobs = node_jobs(case)
+    dead = doomed_nodes(case, fail)
+    rerun = bool(two.get("rerun"))
+    must = {t for n, ts in jobs.items() if n not in dead for t in ts if rerun or t not in ok1}
+    log = obs.get("bodylog") or []
+    starts = [e.split()[1] for e in log if e.startswith("S ")]
+    if sorted(starts) != sorted(must):
+        twice = sorted({t for t in starts if starts.count(t) > 1})
+        return False, (f"bodies executed in the second submission {sorted(starts)}, expected {sorted(must)}"
+                       + (f" (twice: {twice})" if twice else ""))
+    anc: dict[str, list[str]] = {}
+    for nd in case["nodes"]:
+        a: list[str] = []
+        for p in all_preds(nd):
+            for x in [p] + anc[p]:
+                if x not in a:
+                    a.append(x)
+        anc[nd["name"]] = a
+    node_of = {t: n for n, ts in jobs.items() for t in ts}
+    ended = set()
+    for e in log:
+        kind, t = e.split()[:2]
+        if kind == "E":
+            ended.add(t)
+        elif kind == "S":
+            late = [j for p in anc[node_of[t]] for j in jobs[p] if j in must and j not in ended]
+            if late:
+                return False, f"body {t} started before the bodies {late} it depends on had ended in this submission"
+    if not (fail & must):
+        if obs.get("outcome") != "ok":
+            return False, f"no body fails in the second submission but it ended with {obs.get('outcome')} {obs.get('kind')}"
+        gen = {t: (1 if (not rerun and t in ok1) else 2) for ts in jobs.values() for t in ts}
+        want = reference_outputs(case, gen)
+        got = obs.get("outputs")
+        if got != want:
+            bad = [n for n in want if (got or {}).get(n) != want[n]]
+            return False, f"outputs of {bad} are not the values of this submission: {json.dumps({n: (got or {}).get(n) for n in bad})[:300]}"
+    elif obs.get("outcome") == "ok":
+        return False, "a body failed but the submission succeeded"
+    return True, ""
+
+
 def model_view(case: dict, ans: dict) -> tuple[dict | None, list]:
+    if case.get("two"):
+        return model_view_two(case, ans)
     if ans is not None and ans.get("status") == "cycle":
         return {"sorted": None, "rounds": [], "outcome": "cycle", "named": [], "executed": [], "maxopen": 0}, []
     if ans is None or "rounds" not in ans:
@@ -953,9 +1161,11 @@ def precedence_ok(case: dict, bodylog: list[str], fail: set) -> tuple[bool, str]
     return True, ""
 
 
-def reference_outputs(case: dict) -> dict:
-    """C17 oracle: the dataflow evaluated node by node in the order of the case (no scheduler involved)"""
+def reference_outputs(case: dict, gen: dict | None = None) -> dict:
+    """C17 oracle: the dataflow evaluated node by node in the order of the case (no scheduler involved).
+    `gen` (two-pass cases): tag -> generation stamped into the job's value"""
     keep = set(case.get("keep_state") or [])
+    g = (lambda t: f"{t}@{gen[t]}") if gen else (lambda t: t)
     val: dict[str, object] = {}  # node -> output as seen by successors
     per_job: dict[str, list] = {}
     for nd in case["nodes"]:
@@ -965,7 +1175,7 @@ def reference_outputs(case: dict) -> dict:
             val[nm] = list(range(nd["emit"]))
         elif nd.get("split") is not None or nd.get("split_from"):
             vals = nd["split"] if nd.get("split") is not None else val[nd["split_from"]]
-            outs = [["J", f"{nm}.{v}", deps] for v in vals]
+            outs = [["J", g(f"{nm}.{v}"), deps] for v in vals]
             per_job[nm] = outs
             val[nm] = outs  # combined: a list; uncombined: the successors inherit the state and see one element each
         elif nd.get("inherit"):
@@ -976,7 +1186,7 @@ def reference_outputs(case: dict) -> dict:
             per_job[nm] = outs
             val[nm] = outs
         else:
-            val[nm] = ["J", nm, deps]
+            val[nm] = ["J", g(nm), deps]
     return val
 
 
